@@ -516,16 +516,17 @@ class RG:
             if rng.random() < 0.25:
                 # a guard: the branch that is NOT taken has no value at all (division by an exact zero, logarithm of an
                 # exact zero), the way sin(x)/x is guarded at x == 0
-                a = self.realify(self.scalar(min(depth - 1, 1), dlev=dlev, smooth=dlev > 0), dlev > 0)
-                s_ = self.realify(S(0), smooth)
+                # the guard compares a coordinate (exact, bounded by 1.25 in every workload point) with 2
+                a = m_getitem(self.xvec(), (("int", rng.randrange(self.d)),))
+                s_ = self.realify(self.coef(()), smooth)  # a plain mapped terminal: s - s is zero only when evaluated
                 zero = m_add("sub", s_, s_)
                 bad = m_div(S(0), zero) if rng.random() < 0.6 else m_un("fn", zero, "ln")
                 good = S()
                 if rng.random() < 0.5:
-                    g_ = m_cond(N("cmp", (a, m_add("add", a, lit(1))), "lt", (), {}, kind="cond"), good, bad)
+                    g_ = m_cond(N("cmp", (a, lit(2)), "lt", (), {}, kind="cond"), good, bad)
                     g_.a = "guard:true"
                 else:
-                    g_ = m_cond(N("cmp", (a, m_add("add", a, lit(1))), "gt", (), {}, kind="cond"), bad, good)
+                    g_ = m_cond(N("cmp", (a, lit(2)), "gt", (), {}, kind="cond"), bad, good)
                     g_.a = "guard:false"
                 return g_
             return m_cond(self.cond(depth - 1, dlev), S(), S(rng.choice([1, 2])))
@@ -574,7 +575,8 @@ class RG:
             e = m_getitem(N("eps", (), k, (k,) * k, {}, real=True), tuple(("idx", nm) for nm in names))
             for nm in names:
                 e = m_mul(e, m_getitem(T((k,)), (("idx", nm),)))
-            return e if rng.random() < 0.6 else m_un(rng.choice(["real", "conj", "abs", "neg"]), e)
+            # (abs of a complex quantity is not differentiable: below a derivative in complex mode it is left out, as everywhere)
+            return e if rng.random() < 0.6 else m_un(rng.choice(["real", "conj", "neg"] + ([] if smooth and self.cplx else ["abs"])), e)
         if w == "dot":
             return N("dot", (T((n,)), T((n,))), None, (), {})
         if w == "inner":
